@@ -1050,6 +1050,10 @@ def run(repo: Repo, rep: Report, tier: str) -> None:
     n += rule_memory(repo, rep)
     n += rule_output(repo, rep)
     n += rule_value_keyed(repo, rep)
+    # memoised per-call helpers (alternation masks, label subsets) must be keyed by the state they depend on
+    from .c20 import rule_cache_key
+
+    n += rule_cache_key(repo, rep, mods + dems)
     rep.floor("C05 rule instances", n, 80)
     rep.decided_clauses += [
         "label agreement: modulator and demodulator go through the same point table and label table by the same index (search idiom), or through the inverse label map (PSK), or by the natural-binary integer with a natural-binary table; the bit-group -> integer kernel is MSB first for all 2^b groups",
